@@ -30,6 +30,22 @@ theorem c37_length (z : α) (v : List α) (off : Nat) (ph : α) :
     (rotateRight z v off).length = v.length ∧ (rotateLeft z v off).length = v.length := by
   simp [shiftRight, shiftLeft, rotateRight, rotateLeft]
 
+-- OBLIGATION c37_generic_shift_right : generic_shift_right(value1, value2, off)[i] = Cat(value1, value2)[i+off]: value1's bit while i+off < width, then value2's bit (the freed space is filled from value2), 0 past both; every offset
+theorem c37_generic_shift_right (z : α) (a b : List α) (off i : Nat) (hi : i < a.length)
+    (hb : b.length = a.length) :
+    (genericShiftRight z a b off)[i]? =
+      if i + off < a.length then a[i + off]?
+      else if i + off < 2 * a.length then b[i + off - a.length]? else some z :=
+  getElem?_gsr_cases z a b off i hi hb
+
+-- OBLIGATION c37_generic_shift_left : generic_shift_left(value1, value2, off)[i] = value1[i-off] while off ≤ i, then value2[i+width-off] (filled from the top of value2), 0 past both; every offset
+theorem c37_generic_shift_left (z : α) (a b : List α) (off i : Nat) (hi : i < a.length)
+    (hb : b.length = a.length) :
+    (genericShiftLeft z a b off)[i]? =
+      if off ≤ i then a[i - off]?
+      else if off ≤ i + a.length then b[i + a.length - off]? else some z :=
+  getElem?_gsl_cases z a b off i hi hb
+
 -- OBLIGATION c37_shift_right_zero : shift_right with the default placeholder 0: result[i] = value[i+off] if i+off < width else 0, for EVERY offset (no bound)
 theorem c37_shift_right_zero (z : α) (v : List α) (off i : Nat) (hi : i < v.length) :
     (shiftRight z v off z)[i]? = some ((v[i + off]?).getD z) :=
@@ -171,6 +187,8 @@ example :
 end TxV.Shifter
 
 #print axioms TxV.Shifter.c37_length
+#print axioms TxV.Shifter.c37_generic_shift_right
+#print axioms TxV.Shifter.c37_generic_shift_left
 #print axioms TxV.Shifter.c37_shift_right_zero
 #print axioms TxV.Shifter.c37_shift_left_zero
 #print axioms TxV.Shifter.c37_shift_right_partial
